@@ -32,12 +32,14 @@ def minimise(case, fails):
     cur = list(case)
     changed = True
     budget = 200
+    deadline = time.time() + 120          # a replay that is merely small-ish beats a check that never ends
     while changed and budget > 0:
         changed = False
         for i in range(len(cur) - 1, 0, -1):
             cand = cur[:i] + cur[i + 1:]
             budget -= 1
-            if budget <= 0:
+            if budget <= 0 or time.time() > deadline:
+                budget = 0
                 break
             if len(cand) >= 2 and fails(cand):
                 cur = cand
@@ -167,11 +169,26 @@ def standard_check(pid, reg, tier, seed, args, t0):
     v0 = variants[0]
     binp = E.build_harness(v0.get("features", ()), v0.get("nightly", False))
     extra = v0.get("harness_args", ())
+    # source-drift sentinel: which source items changed since the model was written?
+    drifted = []
+    try:
+        sys.path.insert(0, os.path.join(E.VERIF, "translate"))
+        import fingerprint
+        rec = json.load(open(os.path.join(E.VERIF, "model_map.json")))["functions"]
+        drifted = fingerprint.drift(os.path.join(E.REPO, "src"), rec)
+    except Exception as ex:       # the sentinel is an aid, never a reason to fail
+        drifted = [f"(sentinel unavailable: {ex})"]
     if args.replay:
         rp = json.load(open(args.replay))
         cases = [rp["script"]]
     else:
         cases = reg["cases"](tier, seed)
+        if drifted and tier == "quick" and not drifted[0].startswith("(sentinel"):
+            # the code is not the code the model was written against: explore more (a sample of the
+            # thorough case set, bounded so that the quick check stays a quick check)
+            more_cases = reg["cases"]("thorough", seed)
+            step = max(1, len(more_cases) // 60000)
+            cases = cases + more_cases[::step]
     # de-duplicate
     seen, uniq = set(), []
     for c in cases:
@@ -186,12 +203,18 @@ def standard_check(pid, reg, tier, seed, args, t0):
     if reg.get("reference_default_build"):
         # implementation-vs-implementation oracle: the default stable build on the same scripts
         ref_bin = E.build_harness((), False)
-        ref_out = dict((id(c), r) for c, r in zip(cases, E.run_impl(ref_bin, cases, ())))
+        ref_out = {}
 
-        def o_same_as_default(case, out, _cache={}):
-            ro = ref_out.get(id(case))
+        def prime_ref(cs):
+            todo = [c for c in cs if "\n".join(c) not in ref_out]
+            for c, r in zip(todo, E.run_impl(ref_bin, todo, ())):
+                ref_out["\n".join(c)] = r
+        prime_ref(cases)
+
+        def o_same_as_default(case, out):
+            ro = ref_out.get("\n".join(case))
             if ro is None:
-                ro = E.run_impl(ref_bin, [case], ())[0]
+                ro = E.run_impl(ref_bin, [case], (), timeout_per_batch=5)[0]
             for op, a, b in zip(case, out, ro):
                 if a != b:
                     return [f"`{op}`: this build prints {a!r}, the default stable build prints {b!r}"]
@@ -235,12 +258,12 @@ def standard_check(pid, reg, tier, seed, args, t0):
     fixed, opened = E.known_findings()
 
     def fails_oracle(cand):
-        io = E.run_impl(binp, [cand], extra)[0]
+        io = E.run_impl(binp, [cand], extra, timeout_per_batch=5)[0]
         return any(o(cand, io) for o in reg["oracles"])
 
     def fails_corr(cand):
-        io = E.run_impl(binp, [cand], extra)[0]
-        mo = E.run_model([cand])[0]
+        io = E.run_impl(binp, [cand], extra, timeout_per_batch=5)[0]
+        mo = E.run_model([cand], timeout_per_batch=5)[0]
         _, mism, _ = evaluate(reg, cand, io, mo)
         return bool(mism)
 
@@ -259,7 +282,10 @@ def standard_check(pid, reg, tier, seed, args, t0):
         found = None
         if tier == "quick" and not args.replay:
             more = reg["cases"]("thorough", seed + 1)
+            more = more[::max(1, len(more) // 80000)]     # bounded: the quick check stays a quick check
             impl2 = E.run_impl(binp, more, extra)
+            if ref_bin:
+                prime_ref(more)
             for c2, io2 in zip(more, impl2):
                 pr = [p for o in reg["oracles"] for p in o(c2, io2)]
                 if pr:
@@ -315,6 +341,8 @@ def standard_check(pid, reg, tier, seed, args, t0):
                                 cases_without_harness_instantiation=unsupported,
                                 operations=opcount),
             proof_obligations_broken=lean["broken"], notes=lean["notes"] + extra_notes,
+            source_drift=dict(changed_since_modelled=drifted,
+                              effect="none" if not drifted else "quick tier widened by a sample of the thorough case set"),
             explanation=reg.get("explanation", ""),
         ),
         assumptions=reg.get("assumptions", []),
